@@ -51,7 +51,22 @@ def run_history(rng, n_ops, identities, clock):
     for _ in range(n_ops):
         if rng.random() < 0.25:
             clock.advance(rng.choice([0, 0, 0, 1, 2, 3600]))
-        kind = rng.choice(["sid", "sid", "multi", "typed", "bulk", "bulk", "bytes", "bulk-same"])
+        kind = rng.choice(["sid", "sid", "multi", "typed", "bulk", "bulk", "bytes", "bulk-same", "node", "jump"])
+        if kind == "node":
+            # building other library objects in the same process (a node, its configuration) must not disturb the counter
+            from bromelia.setup import Diameter
+            import psmdrv
+            Diameter(config=dict(psmdrv.CFG, MODE="CLIENT"))
+            ops.append(("node", "-"))
+            continue
+        if kind == "jump":
+            # as if a long history had passed: the counter stands just below a 32-bit boundary (it only ever moves forward)
+            target = rng.choice([2 ** 32 - 3, 2 ** 32 - 1, 2 ** 31 - 2, 2 ** 33 - 2])
+            if SH.id < target:
+                SH.id = target
+                low = target
+            ops.append(("jump", str(SH.id)))
+            continue
         ident = rng.choice(identities)
         if kind == "sid":
             d = SessionIdAVP(ident).data.decode()
